@@ -55,6 +55,7 @@ typedef struct {
 
 typedef struct {
   long off, len; long serial; ogg_int64_t gp; int bos, eos, cont; int npk; int link; /* link index in file or -1 */
+  long pageno; int tail;   /* tail: the page ends in the middle of a packet (last lacing value 255) */
   int crcok;
 } page_t;
 
